@@ -44,7 +44,27 @@ func C03(c *Ctx) int {
 		Job: JobOpts{Perturb: 9, HoldPoints: []string{"and.arrive", "flow.action", "flow.flowtrace", "tracer.take"}}}); err != nil {
 		c.Infraf("%v", err)
 	}
-	c.Extra["programs"] = len(once) + len(loops) + len(bursts)
+	// two tokens over ONE incoming flow while the other incoming flow is still empty:
+	// the gateway must keep waiting (found by model checking Engine.tla: EngineWithinGame)
+	if err := c.TokenGameRound(fs, []*prog.Program{DoubleArrival()}, RoundOpts{Label: "double-arrival", MaxSteps: 6, Invariants: []string{"XCeaseIffDone", "XReqOnce"}, Job: JobOpts{LingerMs: 25}}); err != nil {
+		c.Infraf("%v", err)
+	}
+	// level M: the gateway's inbox, parked tokens and distributeFlows over every interleaving
+	{
+		maxN := 2
+		if !c.Quick() {
+			maxN = 3
+		}
+		var fam []*prog.Program
+		for n := 1; n <= maxN; n++ {
+			for m := 1; m <= maxN; m++ {
+				fam = append(fam, gen.ParallelNM(n, m, false))
+			}
+		}
+		fam = append(fam, gen.ParallelBurst(1, 1, 2), gen.ParallelBurst(2, 1, 2), gen.ParallelBurst(1, 2, 2), DoubleArrival())
+		c.EngineRound(fam, EngineOpts{Label: "parallel", MaxFlows: 12, NWaiters: 0, RunsPer: 3})
+	}
+	c.Extra["programs"] = len(once) + len(loops) + len(bursts) + 1
 	c.Assumptions = append(c.Assumptions, "upstream tokens reach the gateway in the order their tasks are answered only up to goroutine scheduling; the property must hold for every order, so this is not an assumption of the verdict")
 	return c.Finish("model_checking", "all N x M in 1..4: TLC enumerates every order of answering the N upstream and M downstream tasks (single activation, exhaustive in thorough tier, capped sample in quick) and simulates 1..3 re-entries through a loop; every schedule replayed on the real engine and validated by TokenGameTrace", !c.Quick(), fs)
 }
